@@ -2058,6 +2058,158 @@ def check_misc(ctx, stats, hist):
 
 
 
+# ------------------------------------------------------------------ positions: every violation kind in every expression context / delayed-check position
+
+POSITION_VIOLATIONS = [   # (label, accepted error kinds, ill-typed int expression over `n: int`, well-typed twin)
+    ("operand-type", {"Stacked"}, "n + true", "n + 1"),
+    ("argument-type", {"Stacked"}, "Main.two(n, \"s\")", "Main.two(n, 2)"),
+    ("call-arity", {"Stacked"}, "Main.two(n)", "Main.two(n, 1)"),
+    ("unresolved-member", {"CannotResolveMember"}, "Main.missing9(n)", "Main.id(n)"),
+    ("unresolved-name", {"CannotResolveName"}, "n + zz9", "n + n"),
+    ("unresolved-class", {"CannotResolveClass"}, "Nope9.f(n)", "Main.id(n)"),
+    ("type-argument-arity", {"Stacked"}, "Main.gid<int, bool>(n)", "Main.gid<int>(n)"),
+    ("non-exhaustive-match", {"NonExhaustiveMatch"}, "match Main.opt(n) { So(v9) -> v9 }", "match Main.opt(n) { So(v9) -> v9, No -> 0 }"),
+    ("refutable-let", {"NonExhaustiveMatch"}, "{ let So(v9) = Main.opt(n); v9 }", "{ let v9 = Main.opt(n); n }"),
+    ("lambda-return-type", {"Stacked"}, "Main.ap((q9: int) -> true, n)", "Main.ap((q9: int) -> q9, n)"),
+    ("if-condition-type", {"Stacked"}, "if n { 1 } else { 2 }", "if n > 0 { 1 } else { 2 }"),
+    ("private-member", {"CannotResolveMember"}, "Hid.mk().secret()", "Hid.mk().open()"),
+]
+POSITION_DECLS = ("class Sc(A, B(int)) {\n  method k(): int = 0\n}\n"
+                  "class Op(No, So(int)) {\n  method k(): int = 0\n}\n"
+                  "class Hid(val z: int) {\n  function mk(): Hid = Hid.init(1)\n  method open(): int = this.z\n  private method secret(): int = this.z\n}\n")
+
+
+def position_module(c07, expr):
+    """(module text, {0-based line: context name}): one function per expression context of builder
+    C07's CONTEXTS, each on its own line, with `expr` at the context's hole."""
+    lines = (POSITION_DECLS + "\n".join(c07.CTX_PRELUDE)).split("\n")
+    lines += ["class Main {", "  function id(a: int): int = a", "  function <T> gid(v: T): T = v",
+              "  function two(a: int, b: int): int = a + b", "  function ap(g: (int) -> int, a: int): int = g(a)",
+              "  function opt(a: int): Op = if a > 0 { Op.So(a) } else { Op.No() }"]
+    where = {}
+    for k, cdef in enumerate(c07.CONTEXTS):
+        if len(cdef) > 3:
+            continue                   # contexts that only take an if-let expression
+        where[len(lines)] = cdef[0]
+        lines.append(f"  function c{k}(x: Sc, n: int): int = " + cdef[1].format(E=expr))
+    lines += ["  function main(): unit = Process.println(\"m\")", "}"]
+    return "\n".join(lines) + "\n", where
+
+
+def check_positions(ctx, stats, hist):
+    """Position dimension of "every static error is rejected wherever it occurs": one violation per
+    error kind that can sit inside an expression, embedded (a) in every expression context of
+    builder C07's context family and (b) in the delayed-check positions of builder C13's
+    branch-structured generic-argument family (the body of a lambda that is only typeable from the
+    context, or a payload that conflicts with a placeholder, next to a later nested generic call).
+    Expected: an error of that kind on exactly that line / in Main, compile_sources = Err."""
+    # ---- (a) C07's expression contexts
+    try:
+        from . import c07
+        contexts = c07.CONTEXTS
+        assert c07.CTX_PRELUDE
+    except Exception as ex:
+        ctx.assumptions.append(f"position family (a) not run: builder C07's context family unavailable: {ex!r}"[:200])
+        contexts = None
+    if contexts is not None:
+        mods = []
+        for label, kinds, bad, good in POSITION_VIOLATIONS:
+            for which, e in (("ill-typed", bad), ("twin", good)):
+                text, where = position_module(c07, e)
+                mods.append((label, kinds, which, text, where))
+        answers = eval_programs([{"sources": {"Main": m[3]}, "entry": "Main", "std": False, "compile": True} for m in mods])
+        for (label, kinds, which, text, where), ans in zip(mods, answers):
+            pr = {"sources": {"Main": text}, "entry": "Main", "std": False, "compile": True}
+            if which == "twin":
+                stats["pos"] += len(where)
+                if gate_verdict(ans, "Main") != "accept":
+                    ctx.violation(f"position family: well-typed twin of {label} not accepted in some context: "
+                                  f"{[(where.get(int(e['loc'].split(':')[0]), '?'), e['kind']) for e in ans.get('errors', [])][:4]} {ans.get('compile')}",
+                                  {"protocol": "prog", "mutant": "position twin " + label, "module": "Main", "program": pr, "answer": ans,
+                                   "broken": "position family (accept side)"}, no_input=True)
+                else:
+                    stats["pos_accepted"] += len(where)
+                continue
+            by_line = {}
+            for e in ans.get("errors", []):
+                by_line.setdefault(int(e["loc"].split(":")[0]), []).append(e["kind"])
+            for line, cname in where.items():
+                stats["pos"] += 1
+                hist["pos:" + label] = hist.get("pos:" + label, 0) + 1
+                if ans.get("check") == "done" and any(k in kinds for k in by_line.get(line, [])) and ans.get("compile") == "err":
+                    stats["pos_rejected"] += 1
+                    continue
+                stats["pos_slipped"] += 1
+                if stats["pos_slipped"] <= 4:
+                    one, _ = position_module(type("O", (), {"CONTEXTS": [c for c in c07.CONTEXTS if c[0] == cname], "CTX_PRELUDE": c07.CTX_PRELUDE}), dict((l, (b, g)) for l, _, b, g in POSITION_VIOLATIONS)[label][0])
+                    p1 = {"sources": {"Main": one}, "entry": "Main", "std": False, "compile": True}
+                    a1 = eval_programs([p1])[0]
+                    ctx.violation(f"static error not rejected in expression context `{cname}` ({label}): errors on that line {by_line.get(line, [])}, "
+                                  f"alone: {judge_mutant(a1, 'Main') or 'rejected when alone'}",
+                                  {"protocol": "prog", "mutant": f"position {label} @ {cname}", "module": "Main", "program": p1, "answer": a1,
+                                   "why": judge_mutant(a1, "Main") or f"no {sorted(kinds)} error on the context's line in the combined module"})
+    # ---- (b) C13's branch-structured generic arguments: the fault in the delayed-check position
+    try:
+        from . import scopegen as g
+        fam = [(f, sh, [a, b] if sh != "match" else [a, b, a])
+               for f, ks in (("M", g.M_KINDS), ("L", g.L_KINDS)) for sh in ("if", "match", "if-block", "block-if")
+               for a in ks for b in ks if (a in g.NEEDS_HINT or b in g.NEEDS_HINT)]
+        g.mix_program, g.map_expr, g.render
+    except Exception as ex:
+        ctx.assumptions.append(f"position family (b) not run: builder C13's generic-argument family unavailable: {ex!r}"[:200])
+        return
+    L_FAULTS = [("operand-type", {"Stacked"}, ("raw", "true")), ("call-arity", {"Stacked"}, ("raw", "Main.inc(1, 2)")),
+                ("argument-type", {"Stacked"}, ("raw", "Main.inc(\"s\")")), ("unresolved-member", {"CannotResolveMember"}, ("raw", "Main.missing9(1)")),
+                ("unresolved-name", {"CannotResolveName"}, ("raw", "zz9"))]
+    jobs = []
+    for fi, (family, shape, kinds) in enumerate(fam):
+        base = g.mix_program(family, shape, kinds)
+        jobs.append((f"{family}/{shape}/{'+'.join(kinds)}", None, None, base))
+        body = base["funs"][0]["body"]
+        if family == "L":
+            for label, ek, fault in (L_FAULTS if not ctx.quick else [L_FAULTS[(fi + j) % len(L_FAULTS)] for j in range(2)]):
+                def f(node, fault=fault):
+                    if node[0] == "lam" and len(node[1]) == 1 and node[1][0][1] is False:
+                        return ("lam", node[1], ("bin", "+", ("var", node[1][0][0]), fault))
+                    return node
+                nb = g.map_expr(body, f)
+                if nb != body:
+                    q = dict(base); q["funs"] = [dict(base["funs"][0], body=nb)]
+                    jobs.append((f"{family}/{shape}/{'+'.join(kinds)}", label + " in the context-typed lambda body", ek, q))
+        else:
+            def f(node):
+                if node[0] == "gcall" and node[1] == "Maybe.Just":
+                    return (node[0], node[1], [("raw", "\"s\"")]) + tuple(node[3:])
+                return node
+            nb = g.map_expr(body, f)
+            if nb != body:
+                q = dict(base); q["funs"] = [dict(base["funs"][0], body=nb)]
+                jobs.append((f"{family}/{shape}/{'+'.join(kinds)}", "Maybe<Str> where Maybe<int> is required (conflicts with the placeholder)", {"Stacked"}, q))
+    progs = [{"sources": g.render(j[3]), "entry": "Main", "std": False, "compile": True} for j in jobs]
+    answers = eval_programs(progs)
+    for (name, label, ek, _), pr, ans in zip(jobs, progs, answers):
+        stats["pos"] += 1
+        if label is None:
+            if gate_verdict(ans, "Main") == "accept":
+                stats["pos_accepted"] += 1
+            else:
+                ctx.violation(f"position family: base program {name} of builder C13's generic-argument family not accepted",
+                              {"protocol": "prog", "mutant": "position base " + name, "module": "Main", "program": pr, "answer": ans,
+                               "broken": "position family (accept side)"}, no_input=True)
+            continue
+        hist["pos:delayed"] = hist.get("pos:delayed", 0) + 1
+        why = judge_mutant(ans, "Main")
+        if why is None and any(e["kind"] in ek for e in ans["errors"]):
+            stats["pos_rejected"] += 1
+            continue
+        stats["pos_slipped"] += 1
+        if stats["pos_slipped"] <= 6:
+            ctx.violation(f"static error not rejected in a delayed-check position ({name}: {label}): {why or 'rejected, but without a ' + '/'.join(sorted(ek)) + ' error'}",
+                          {"protocol": "prog", "mutant": f"position {label} @ {name}", "module": "Main", "program": pr, "answer": ans,
+                           "why": why or "wrong error kind"})
+
+
+
 def shrink_program(prog, module, base):
     """Structural shrinking of a generated mutant: drop whole `function fK` definitions of the
     mutated module that are identical to the base program's (so the fault stays), as long as the
@@ -2087,7 +2239,7 @@ def run(ctx):
     rng = ctx.rng
     stats = {k: 0 for k in ["tok", "tok_disagree", "tok_literals", "tok_out_of_range", "tok_f1", "lit", "lit_f1",
                             "asg", "asg_disagree", "asg_accept", "asg_anyfree", "slv", "slv_accept",
-                            "misc", "misc_rejected", "misc_accepted", "pat", "pat_rejected", "pat_accepted", "pat_slipped", "pat_overstrict", "sup", "sup_cyclic", "sup_disagree", "sup_variant_memoised", "sup_prog_cyclic", "scope", "scope_rejected", "scope_accepted", "scope_slipped", "scope_base_rejected", "scope_ssa_compared", "scope_ssa_disagree", "scope_ssa_unparsed", "gate", "gate_rejected", "gate_accepted", "gate_slipped", "gate_overstrict", "join", "join_rejected", "join_accepted", "join_slipped", "join_base_rejected", "base_programs", "mutants", "mutants_rejected", "mutants_slipped", "tok_oracle_fail", "slv_disagree", "asg_spec_fail", "prog_f1", "prog_f2",
+                            "pos", "pos_rejected", "pos_accepted", "pos_slipped", "misc", "misc_rejected", "misc_accepted", "pat", "pat_rejected", "pat_accepted", "pat_slipped", "pat_overstrict", "sup", "sup_cyclic", "sup_disagree", "sup_variant_memoised", "sup_prog_cyclic", "scope", "scope_rejected", "scope_accepted", "scope_slipped", "scope_base_rejected", "scope_ssa_compared", "scope_ssa_disagree", "scope_ssa_unparsed", "gate", "gate_rejected", "gate_accepted", "gate_slipped", "gate_overstrict", "join", "join_rejected", "join_accepted", "join_slipped", "join_base_rejected", "base_programs", "mutants", "mutants_rejected", "mutants_slipped", "tok_oracle_fail", "slv_disagree", "asg_spec_fail", "prog_f1", "prog_f2",
                             "sample_sites_total", "sample_bases_accepted"]}
     hist, errkinds, samples_out = {}, {}, []
     built = os.path.exists(common.harness_bin("C06")) and os.path.exists(common.driver_bin("C06")) and \
@@ -2120,10 +2272,11 @@ def run(ctx):
         check_scopes(ctx, rng, stats, hist)
         check_patterns(ctx, stats, hist)
         check_misc(ctx, stats, hist)
+        check_positions(ctx, stats, hist)
         check_mutants(ctx, rng, ctx.scale(1600, 12000), ctx.scale(500, 8000), stats, hist, errkinds, samples_out)
     ctx.cov.update({
-        "evaluations": stats["tok"] + stats["lit"] + stats["asg"] + stats["slv"] + stats["mutants"] + stats["join"] + stats["gate"] + stats["scope"] + stats["sup"] + stats["pat"] + stats["misc"],
-        "distinct_nontrivial": stats["tok_out_of_range"] + stats["asg_accept"] + stats["slv_accept"] + stats["mutants_rejected"] + stats["join_rejected"] + stats["gate_rejected"] + stats["scope_rejected"] + stats["pat_rejected"] + stats["misc_rejected"],
+        "evaluations": stats["tok"] + stats["lit"] + stats["asg"] + stats["slv"] + stats["mutants"] + stats["join"] + stats["gate"] + stats["scope"] + stats["sup"] + stats["pat"] + stats["misc"] + stats["pos"],
+        "distinct_nontrivial": stats["tok_out_of_range"] + stats["asg_accept"] + stats["slv_accept"] + stats["mutants_rejected"] + stats["join_rejected"] + stats["gate_rejected"] + stats["scope_rejected"] + stats["pat_rejected"] + stats["misc_rejected"] + stats["pos_rejected"],
         "rule": "evaluations = token streams + literal expressions + type pairs + constraint problems + program mutants, each run "
                 "through the real crates; non-trivial = out-of-range literals inside token streams + type pairs the kernel "
                 "accepts (consistent up to any-holes; most pairs differ in one deep position) + accepted constraint problems "
